@@ -24,11 +24,11 @@ import (
 	"time"
 )
 
-const verifDir = "/verif"
-
-// repoDir is /repo; outDir is where evidence and replay files go (/verif). Both can be overridden
-// for development only (evaluating a breaking change in a scratch worktree while other checks
-// run): VERIF_DEV_REPO, VERIF_DEV_OUT. Registered commands never set them.
+// verifDir is /verif; repoDir is /repo; outDir is where evidence and replay files go (/verif).
+// All can be overridden for development only (evaluating a breaking change in a scratch worktree,
+// from a snapshot of the harness, while the harness is being edited): VERIF_DEV_DIR,
+// VERIF_DEV_REPO, VERIF_DEV_OUT. Registered commands never set them.
+var verifDir = envOr("VERIF_DEV_DIR", "/verif")
 var repoDir = envOr("VERIF_DEV_REPO", "/repo")
 var outDir = envOr("VERIF_DEV_OUT", verifDir)
 
